@@ -11,7 +11,8 @@ pub fn cases(ctx: &Ctx) -> Vec<Case> {
     let mut r = Rng::new(ctx.seed ^ 0xC02);
     let pools = build_pools();
     let mut out = vec![];
-    let mut todo: Vec<Scenario> = corpus().into_iter().filter(|s| s.ts < 3).collect();
+    // streams with explicit lengths are only required to be reproduced when lengths are kept (NoChange)
+    let mut todo: Vec<Scenario> = corpus().into_iter().filter(|s| s.ts < 3).map(|mut s| { if has_explicit(&s.elems) { s.nochange = true; } s }).collect();
     let mut idx = 0usize;
     loop {
         for s in todo.drain(..) { if out.len() < ctx.n.max(40) { out.push(case_of(&s)); } }
